@@ -134,7 +134,7 @@ func genC07(t *rapid.T) *Scenario {
 	sc := &Scenario{Prop: "C07"}
 	sc.Stage, sc.Mode, _ = strings.Cut(kind, "/")
 	genFunc(t, sc)
-	sc.ErrKind = rapid.IntRange(0, 3).Draw(t, "errkind")
+	sc.ErrKind = rapid.IntRange(0, 4).Draw(t, "errkind")
 	sc.CtxErr = rapid.Bool().Draw(t, "ctxerr")
 	switch sc.Stage {
 	case "map", "fmap":
@@ -193,7 +193,7 @@ var c06Stages = []string{"map", "fmap", "filter", "take", "takeWhile", "partitio
 func genC06(t *rapid.T) *Scenario {
 	sc := &Scenario{Prop: "C06", Stage: rapid.SampledFrom(c06Stages).Draw(t, "stage")}
 	genFunc(t, sc)
-	sc.ErrKind = rapid.IntRange(0, 3).Draw(t, "errkind")
+	sc.ErrKind = rapid.IntRange(0, 4).Draw(t, "errkind")
 	sc.CtxErr = rapid.Bool().Draw(t, "ctxerr")
 	nIn := 1
 	tick := false
@@ -377,6 +377,9 @@ func genC11(t *rapid.T) *Scenario {
 			sc.Fail = rapid.SliceOfNDistinct(rapid.IntRange(0, 100), 0, 30, rapid.ID[int]).Draw(t, "fail")
 		}
 	}
+	if sc.Stage == "emit" && rapid.IntRange(0, 2).Draw(t, "slowf") == 0 {
+		sc.T.Slow = rapid.SliceOfN(rapid.IntRange(0, 3), 1, 4).Draw(t, "slow")
+	}
 	// consumer: always ready, or with idle gaps
 	if rapid.IntRange(0, 2).Draw(t, "idle") > 0 {
 		sc.T.Consume = genPattern(t, "consume", 6, 8, 4)
@@ -471,7 +474,7 @@ func genC09(t *rapid.T) *Scenario {
 	in := rapid.SliceOfN(rapid.IntRange(0, 20), 0, 16).Draw(t, "in")
 	sc.In = [][]int{in}
 	sc.Caps = []int{rapid.IntRange(0, 3).Draw(t, "cap")}
-	sc.ErrKind = rapid.IntRange(0, 3).Draw(t, "errkind")
+	sc.ErrKind = rapid.IntRange(0, 4).Draw(t, "errkind")
 	sc.CtxErr = rapid.Bool().Draw(t, "ctxerr")
 	switch sc.Stage {
 	case "fork.map":
@@ -539,7 +542,19 @@ func genC10(t *rapid.T) *Scenario {
 	default:
 		n = rapid.IntRange(sc.Par, 15).Draw(t, "n")
 	}
-	raw := rapid.SliceOfN(rapid.IntRange(0, 20), n, n).Draw(t, "in")
+	long := cm.name != "product/1" && rapid.IntRange(0, 5).Draw(t, "long") == 0
+	if long {
+		n = rapid.IntRange(60, 200).Draw(t, "nlong") // long inputs sitting in a large buffer (batching thresholds)
+	}
+	raw := make([]int, n)
+	if long {
+		k := rapid.IntRange(1, 19).Draw(t, "stride")
+		for i := range raw {
+			raw[i] = (i * k) % 21
+		}
+	} else {
+		raw = rapid.SliceOfN(rapid.IntRange(0, 20), n, n).Draw(t, "in")
+	}
 	in := make([]int, n)
 	for i, x := range raw {
 		in[i] = cm.elem(i, x)
@@ -549,8 +564,16 @@ func genC10(t *rapid.T) *Scenario {
 	if rapid.IntRange(0, 2).Draw(t, "bigcap") == 0 {
 		sc.Caps[0] = rapid.IntRange(4, 8).Draw(t, "cap8")
 	}
-	genPrefill(t, sc)
+	if long {
+		sc.Caps[0] = rapid.SampledFrom([]int{64, 100, 128, n}).Draw(t, "capLong")
+		sc.Prefill = rapid.IntRange(0, min(sc.Caps[0], n)).Draw(t, "prefillLong")
+	} else {
+		genPrefill(t, sc)
+	}
 	cancel := rapid.IntRange(0, 3).Draw(t, "cancel") == 0
 	sc.Script = genForkScript(t, 1, cancel, 40)
+	if long {
+		sc.Gated = rapid.Bool().Draw(t, "gatedLong") // ungated: the workers race each other for the buffered values
+	}
 	return sc
 }
